@@ -6,6 +6,7 @@ attribute must be what the underlying buffer data says (`Mirror`)."""
 import collections
 import itertools
 import random
+import struct
 
 import numpy as np
 
@@ -236,9 +237,10 @@ class Case:
         if ci in U.leaflike:
             na = r.randint(0, 4)                      # one total size (4 items), different splits - an empty array included
             if r.random() < 0.6:                      # else: left at its default (zeros)
-                kw["mat"] = [[float(r.choice([0, 0, 1, 7])) for _ in range(2)] for _ in range(2)]
+                # values next to the default (zeros) included: "equal to the default" is exact equality, not closeness
+                kw["mat"] = [[float(r.choice([0, 0, 0, 1, 7, 1e-9, 5e-324])) for _ in range(2)] for _ in range(2)]
             kw["name"] = short_text(r)                # a text of at most 7 bytes: every string occupies 16 bytes
-            kw["arr"] = [float(r.randint(0, 9)) for _ in range(na)]
+            kw["arr"] = [float(r.choice([r.randint(0, 9), 0, 1e-9])) for _ in range(na)]
             kw["brr"] = [r.randint(10, 19) for _ in range(4 - na)]
         name = self.new_name()
         line = f"new {name} {ci} {bi} " + " ".join(words)
@@ -647,6 +649,13 @@ class Case:
                     self.check_in_buffer(d, buf, hn, depth + 1)
 
 
+def fbits(x):
+    """a number as the model sees it: an integer as itself, a float as its IEEE-754 bit pattern (0.0 -> 0; no -0.0 is generated)"""
+    if isinstance(x, (float, np.floating)):
+        return struct.unpack("<Q", struct.pack("<d", float(x)))[0]
+    return int(x)
+
+
 def venc(U, ci, val):
     """V encoding (model) of a value tree by xo names"""
     out = []
@@ -661,7 +670,7 @@ def venc(U, ci, val):
     if ci in U.leaflike:
         for n in ("mat", "name", "arr", "brr"):
             xs = val[n].encode("utf-8") if isinstance(val[n], str) else val[n]
-            out.append("a" + ("/".join(str(int(x)) for x in xs) or "-"))
+            out.append("a" + ("/".join(str(fbits(x)) for x in xs) or "-"))
     return "(" + " ".join(out) + ")"
 
 
@@ -678,7 +687,7 @@ def canon_dict(d):
     if hasattr(d, "to_nparray"):                                # an xobject array inside the full dictionary of a referent
         d = d.to_nparray()
     if hasattr(d, "__len__"):                                   # an array-valued field: a list of numbers
-        return "[" + ",".join(str(int(x)) for x in np.asarray(d).reshape(-1)) + "]"
+        return "[" + ",".join(str(fbits(x)) for x in np.asarray(d).reshape(-1)) + "]"
     return str(int(d))
 
 
